@@ -12,7 +12,7 @@ COL_WIDTH = 6.25  # default portrait col_width (8.5 - 2.25)
 def make_table(heights, groups=None, *, ndata=2, fonts=None, sizes=None, subline=None, page_by_levels=0,
                new_page=False, pageby_row=None, pageby_header=None, header="explicit", footnote=None, source=None,
                nrow=10, placements=None, tall_cols=None, title=False, group_first=True, rel_widths=None, shared=None,
-               reverse_group_cols=False, size_pattern=None, null_cells=None, tall_header=0, tall_header_col=None, group_by_runs=None):
+               reverse_group_cols=False, size_pattern=None, null_cells=None, tall_header=0, tall_header_col=None, group_by_runs=None, glyphs=None):
     """Deterministic builder.
     heights: list of target line counts per row.
     groups: list (one per page_by level) of per-row values; subline: per-row values or None.
@@ -60,7 +60,7 @@ def make_table(heights, groups=None, *, ndata=2, fonts=None, sizes=None, subline
                 t = sh            # the same long text reused in several cells (no coordinate tag)
                 hk = max(hk, metrics.lines_lower_bound(t, fonts[j], sizes[j], cws[j]))
             elif j == tall and k > 1:
-                t = metrics.filler(k, cws[j], fonts[j], sizes[j], prefix=tag)
+                t = metrics.filler(k, cws[j], fonts[j], sizes[j], prefix=tag, words=metrics.WORD_SETS[glyphs[i % len(glyphs)]] if glyphs else None)
                 if t is None:
                     t, hk = tag, 1
             else:
@@ -227,7 +227,7 @@ def lengthen_groups(draw, groups, p=4):
 def pag_recipe(draw, *, fonts=False, strategies=("plain", "page_by", "page_by_new", "subline"), max_rows=40, nrow_range=(2, 30),
                max_height=6, headers=("explicit", "default", "multi", "none"), levels_max=1, dividers=False,
                subline_with_page_by=False, pageby_rows=("column",), fn_src=True, placements=True, nulls=False,
-               widths=False, tall_headings=False, tall_headers=False, group_by=False):
+               widths=False, tall_headings=False, tall_headers=False, group_by=False, glyph_mix=False):
     strat = draw(st.sampled_from(strategies))
     ndata = draw(st.integers(1, 3))
     levels = 0
@@ -296,6 +296,7 @@ def pag_recipe(draw, *, fonts=False, strategies=("plain", "page_by", "page_by_ne
                      rel_widths=rel, shared=shared, reverse_group_cols=(levels >= 2 and draw(st.integers(0, 9)) < 3),
                      size_pattern=size_pattern,
                      tall_header=draw(st.integers(2, 3)) if (tall_headers and draw(st.integers(0, 9)) < 4) else 0,
-                     tall_header_col=draw(st.integers(0, 3)), group_by_runs=gb_runs)
+                     tall_header_col=draw(st.integers(0, 3)), group_by_runs=gb_runs,
+                     glyphs=[draw(st.sampled_from(["normal", "wide", "narrow"])) for _ in range(draw(st.integers(1, 4)))] if (glyph_mix and draw(st.booleans())) else None)
     rec["strategy"] = strat
     return rec
